@@ -11,6 +11,7 @@ from __future__ import annotations
 import itertools
 import numpy as np
 from symx import catalogue as cat
+from symx import dense
 from symx.dense import reassemble
 from symx.wellformed import wellformed
 from .common import rng_of, cfg_of, describe
@@ -250,6 +251,13 @@ def k_svd_trunc(ctx, spec):
     else:
         Fd = np.zeros(A.shape, dtype=A.dtype)
     ctx.eq(A - Fk, Fd, 'svd_trunc: a - U_k S_k V_k == U_d S_d V_d')
+    # the truncation error is exactly the norm of the discarded values: ||U_d S_d V_d||_F^2 == sum of discarded s^2 (isometry relations of the
+    # contract; decided by an ideal-membership certificate, symx.ideal)
+    if comp._data.any():
+        disc2 = sum(x * x for x in Sd._data)
+    else:
+        disc2 = 0
+    ctx.eq([(dense.conj(Fd) * Fd).sum()], [disc2], 'svd_trunc: || a - U_k S_k V_k ||^2 == sum of the discarded singular values squared')
     ctx.eq(reassemble(full, legs), A, 'svd: U S V == a')
     return {'a': describe(a), 'axes': axes, 'D_total': D_total, 'kept': lS0.D}
 
